@@ -193,6 +193,17 @@ def alias_class(fam, rng, s, rec, det, facts, how):
         fld = f"    x: {ann}" + (f" = {dflt}" if o["default"] else "")
         extra = (f"aliases = {{'x': {S_}}}",)
     ysrc = "    y: int = 1" if o["default"] else "    y: int"
+    if how in ("meta", "ann") and rng.random() < 0.2:
+        # the string is the alias of the NEAREST declaration: a grand-parent declares the member under another key, the parent
+        # re-declares it with the string, the class itself only inherits
+        facts["three_levels"] = True
+        stale = (f"    x: {ann} = field(" + (f"default={dflt}, " if o["default"] else "") + "metadata=field_options(alias='stale_key'))" if how == "meta"
+                 else f"    x: Annotated[{ann}, Alias('stale_key')]" + (f" = {dflt}" if o["default"] else ""))
+        src = ("@dataclass\nclass B0(DataClassDictMixin):\n" + stale + "\n" + ysrc + "\n" + alias_config(o, extra) +
+               "@dataclass\nclass B1(B0):\n" + fld + "\n@dataclass\nclass M(B1):\n    pass\n")
+        if not build(fam, src, rec, det, facts):
+            return False
+        return check_alias_roundtrip(fam, fam.module.M, s, o, rec, det, facts)
     src = "@dataclass\nclass M(DataClassDictMixin):\n" + fld + "\n" + ysrc + "\n" + alias_config(o, extra)
     if not build(fam, src, rec, det, facts):
         return False
@@ -472,15 +483,32 @@ def pos_literal_mixin_enum_member(fam, rng, s, rec, det, facts):
 
 def pos_literal_bytes(fam, rng, s, rec, det, facts):
     import base64
-    src = "LITB = Literal[SB, b'zz']\n@dataclass\nclass M(DataClassDictMixin):\n    v: LITB\n"
+    from mashumaro.codecs.basic import BasicDecoder, BasicEncoder
+    # the bytes member is written and recognised in whatever form is in force for bytes: base64 text by default, the user's
+    # own form (hex here) when a strategy for bytes is registered at any level, the bytes themselves when passed through
+    form = rng.choice(["default", "default", "cfg_strategy", "cfg_dialect", "call_dialect", "codec_dialect", "pass_through"])
+    facts["bytes_form"] = form
+    pre = ("class HexS(SerializationStrategy):\n    def serialize(self, v):\n        return v.hex()\n    def deserialize(self, v):\n        return bytes.fromhex(v)\n"
+           "class HexD(Dialect):\n    serialization_strategy = {bytes: " + rng.choice(["HexS()", "{'serialize': bytes.hex, 'deserialize': bytes.fromhex}"]) + "}\n")
+    cfg = {"cfg_strategy": "    class Config(BaseConfig):\n        serialization_strategy = {bytes: HexS()}\n",
+           "cfg_dialect": "    class Config(BaseConfig):\n        dialect = HexD\n",
+           "call_dialect": "    class Config(BaseConfig):\n        code_generation_options = [ADD_DIALECT_SUPPORT]\n",
+           "pass_through": "    class Config(BaseConfig):\n        serialization_strategy = {bytes: pass_through}\n"}.get(form, "")
+    src = pre + "LITB = Literal[SB, b'zz']\n@dataclass\nclass M(DataClassDictMixin):\n    v: LITB\n    plain: bytes = b''\n    o: Optional[Literal[SB]] = None\n" + cfg
     if not build(fam, src, rec, det, facts):
         return False
     m = fam.module
     sb = m.SB
-    wire = base64.encodebytes(sb).decode()
-    r = m.M.from_dict({"v": wire})
-    out = m.M(sb).to_dict()
-    if r.v != sb or out["v"] != wire:
+    enc = {"default": lambda b: base64.encodebytes(b).decode(), "pass_through": lambda b: b}.get(form, lambda b: b.hex())
+    wire = enc(sb)
+    kw = {"dialect": m.HexD} if form == "call_dialect" else {}
+    if form == "codec_dialect":
+        r = BasicDecoder(m.M, default_dialect=m.HexD).decode({"v": wire, "plain": enc(b"p"), "o": wire})
+        out = BasicEncoder(m.M, default_dialect=m.HexD).encode(m.M(sb, b"p", sb))
+    else:
+        r = m.M.from_dict({"v": wire, "plain": enc(b"p"), "o": wire}, **kw)
+        out = m.M(sb, b"p", sb).to_dict(**kw)
+    if r != m.M(sb, b"p", sb) or out != {"v": wire, "plain": enc(b"p"), "o": wire}:
         rec.violation("literal_bytes:value-not-preserved", dict(det, observed=[common.short(r.v), common.short(out)]), facts)
         return False
     return True
